@@ -380,6 +380,16 @@ impl From<CompiledRegex> for Regex {
     }
 }
 
+#[cfg(regress_verif)]
+impl Regex {
+    pub(crate) fn verif_cr(&self) -> &CompiledRegex {
+        &self.cr
+    }
+    pub(crate) fn verif_cr_mut(&mut self) -> &mut CompiledRegex {
+        &mut self.cr
+    }
+}
+
 impl Regex {
     /// Construct a regex by parsing `pattern` using the default flags.
     /// An Error may be returned if the syntax is invalid.
